@@ -1681,6 +1681,12 @@ func (v *VMValue) AsDictKey() (string, error) {
 }
 
 func ValueEqual(a *VMValue, b *VMValue, autoConvert bool) bool {
+	return valueEqualRaw(a, b, autoConvert, map[[2]any]bool{})
+}
+
+// valueEqualRaw 结构相等比较。visiting 记录当前路径上正在比较的容器对，
+// 再次遇到同一对时视为相等，否则两个各自包含自身的数组/字典会无限递归。
+func valueEqualRaw(a *VMValue, b *VMValue, autoConvert bool, visiting map[[2]any]bool) bool {
 	if a == b {
 		return true
 	}
@@ -1696,8 +1702,14 @@ func ValueEqual(a *VMValue, b *VMValue, autoConvert bool) bool {
 			if len(arr1.List) != len(arr2.List) {
 				return false
 			}
+			key := [2]any{arr1, arr2}
+			if visiting[key] {
+				return true
+			}
+			visiting[key] = true
+			defer delete(visiting, key)
 			for index, i := range arr1.List {
-				if !ValueEqual(i, arr2.List[index], autoConvert) {
+				if !valueEqualRaw(i, arr2.List[index], autoConvert, visiting) {
 					return false
 				}
 			}
@@ -1708,9 +1720,15 @@ func ValueEqual(a *VMValue, b *VMValue, autoConvert bool) bool {
 			if d1.Dict.Length() != d2.Dict.Length() {
 				return false
 			}
+			pair := [2]any{d1, d2}
+			if visiting[pair] {
+				return true
+			}
+			visiting[pair] = true
+			defer delete(visiting, pair)
 			isSame := true
 			d1.Dict.Range(func(key string, value *VMValue) bool {
-				isEqual := ValueEqual(value, d2.Dict.MustLoad(key), autoConvert)
+				isEqual := valueEqualRaw(value, d2.Dict.MustLoad(key), autoConvert, visiting)
 				if !isEqual {
 					isSame = false
 					return false
